@@ -379,6 +379,20 @@ def prove(res, pid, modules, extra_targets=(), clean=False):
 def finish(res, level='proof'):
     """decide the verdict, print VIOLATION / KNOWN-FINDING lines, write evidence, return exit code"""
     pid = res.pid
+    want = os.environ.get('VERIF_REPLAY_SIG')
+    if want is not None:
+        # replay mode: the same deterministic exploration is re-run against the current code; report whether
+        # the recorded failure (by signature) still occurs.  No evidence is written.
+        hit = [f for f in res.failures if f['signature'] == want]
+        if hit:
+            print('REPLAY: reproduced', json.dumps(hit[0], default=str)[:1500])
+            return 1
+        if want == '' and (res.proof_problems or res.disagreements):
+            print('REPLAY: obligation / tie still broken', json.dumps(res.proof_problems, default=str)[:800],
+                  json.dumps(res.disagreements[:2], default=str)[:800])
+            return 1
+        print('REPLAY: not reproduced on the current code')
+        return 0
     known = [k for k in load_known() if k.get('property') == pid and k.get('status') == 'known']
     known_sigs = {k['signature']: k for k in known}
     new_fail, known_hit = [], {}
@@ -400,7 +414,7 @@ def finish(res, level='proof'):
         f = new_fail[0]
         rp = os.path.join(VERIF, 'replays', f'{pid}_{res.tier}_{res.seed}.json')
         with open(rp, 'w') as fh:
-            json.dump({'property': pid, 'kind': 'failing-input', 'failure': f,
+            json.dump({'property': pid, 'kind': 'failing-input', 'tier': res.tier, 'seed': res.seed, 'failure': f,
                        'other_failures': new_fail[1:10], 'n_failures': len(new_fail),
                        'proof_problems': res.proof_problems, 'disagreements': res.disagreements[:5],
                        'replay_cmd': f'./check {pid} --replay {os.path.relpath(rp, VERIF)}'}, fh, indent=1, default=str)
@@ -409,7 +423,7 @@ def finish(res, level='proof'):
     elif broken:
         rp = os.path.join(VERIF, 'replays', f'{pid}_{res.tier}_{res.seed}.json')
         with open(rp, 'w') as fh:
-            json.dump({'property': pid, 'kind': 'broken-obligation-or-tie',
+            json.dump({'property': pid, 'kind': 'broken-obligation-or-tie', 'tier': res.tier, 'seed': res.seed,
                        'no_longer_checks': res.proof_problems,
                        'correspondence_disagreements': res.disagreements[:10],
                        'searched': res.evaluations,
